@@ -1,2 +1,3 @@
+@live.setter
 def spec(self, value):
     self.__live = bool(value)
